@@ -363,6 +363,27 @@ func init() {
 			tLe(tSel(na, tAdd(s.Off, "j!a")), tSel(na, tAdd(s.Off, "j!b"))))))
 		return Tup{}, x.assign(n.Args[0], ns, st1)
 	})
+	reg("sort.Strings", "sorts the string slice in place: a permutation of the old contents (the order itself is not modelled)", func(x *Exec, n *ast.CallExpr, recv ast.Expr, st *State) (Val, *State) {
+		sv, st1 := x.eval(n.Args[0], st)
+		s := sv.(Sl)
+		c := x.c
+		ns := c.freshLike("sortedstrs", s).(Sl)
+		ns.Off, ns.Len, ns.Nil = s.Off, s.Len, s.Nil
+		na, oa := ns.Arr.(Sc).T, s.Arr.(Sc).T
+		perm := c.fresh("perm", arrSort(SInt, SInt))
+		inv := c.fresh("perminv", arrSort(SInt, SInt))
+		c.assumeHere(tForall([][2]string{{"i!p", SInt}}, tImp(tAnd(tLe("0", "i!p"), tLt("i!p", s.Len)),
+			tAnd(tLe("0", tSel(perm, "i!p")), tLt(tSel(perm, "i!p"), s.Len), tEq(tSel(inv, tSel(perm, "i!p")), "i!p"),
+				tEq(tSel(na, tAdd(s.Off, "i!p")), tSel(oa, tAdd(s.Off, tSel(perm, "i!p")))))), tSel(na, tAdd(s.Off, "i!p"))))
+		c.assumeHere(tForall([][2]string{{"i!p", SInt}}, tImp(tAnd(tLe("0", "i!p"), tLt("i!p", s.Len)),
+			tAnd(tLe("0", tSel(inv, "i!p")), tLt(tSel(inv, "i!p"), s.Len), tEq(tSel(perm, tSel(inv, "i!p")), "i!p"))), tSel(inv, "i!p")))
+		// the same fact read from the old slice (a consequence; gives the solver the new position of an old element)
+		c.assumeHere(tForall([][2]string{{"i!p", SInt}}, tImp(tAnd(tLe("0", "i!p"), tLt("i!p", s.Len)),
+			tEq(tSel(oa, tAdd(s.Off, "i!p")), tSel(na, tAdd(s.Off, tSel(inv, "i!p"))))), tSel(oa, tAdd(s.Off, "i!p"))))
+		st1.ghost["perm"] = Sc{perm, arrSort(SInt, SInt)}
+		st1.ghost["perminv"] = Sc{inv, arrSort(SInt, SInt)}
+		return Tup{}, x.assign(n.Args[0], ns, st1)
+	})
 	reg("regexp.MustCompile", "compiles the (constant) pattern", func(x *Exec, n *ast.CallExpr, recv ast.Expr, st *State) (Val, *State) {
 		_, st1 := x.eval(n.Args[0], st)
 		return x.c.freshObj("re", "regexp.Regexp"), st1
@@ -1015,10 +1036,7 @@ func (x *Exec) fprintf(n *ast.CallExpr, st *State, mode string) (Val, *State) {
 				for _, cand := range cands {
 					pieces = nil
 					renderFormat(cand)
-					full := out
-					for _, p := range pieces {
-						full = x.appendSeq(full, p, "out")
-					}
+					full := x.concatAt(out, pieces)
 					c.assumeDef(tImp(tEq(fs.T, c.strLit(cand)), tAnd(tEq(res.Len, full.Len),
 						tForall([][2]string{{"i!w", SInt}}, tImp(tAnd(tLe("0", "i!w"), tLt("i!w", full.Len)),
 							tEq(tSel(res.Arr.(Sc).T, "i!w"), tSel(full.Arr.(Sc).T, tAdd(full.Off, "i!w")))), tSel(res.Arr.(Sc).T, "i!w")))))
@@ -1049,12 +1067,10 @@ func (x *Exec) fprintf(n *ast.CallExpr, st *State, mode string) (Val, *State) {
 			lit("\n")
 		}
 	}
-	// total rendering
+	// total rendering: one fresh sequence described piece by piece at absolute offsets (a chain of pairwise
+	// appends costs the solver one quantifier instantiation per piece for every byte it looks at)
 	out := w.F["out"].(Sl)
-	full := out
-	for _, p := range pieces {
-		full = x.appendSeq(full, p, "out")
-	}
+	full := x.concatAt(out, pieces)
 	if altFull != nil {
 		full = *altFull
 	}
@@ -1255,4 +1271,29 @@ func isByteSlice(t types.Type) bool {
 	}
 	b, ok := sl.Elem().Underlying().(*types.Basic)
 	return ok && b.Kind() == types.Uint8
+}
+
+// concatAt: the sequence out ++ p0 ++ p1 ++ ... as ONE fresh sequence whose bytes are given per piece at absolute offsets.
+func (x *Exec) concatAt(out Sl, pieces []Sl) Sl {
+	if len(pieces) == 0 {
+		return out
+	}
+	if len(pieces) == 1 {
+		return x.appendSeq(out, pieces[0], "out")
+	}
+	c := x.c
+	res := c.freshSeq("out")
+	ra := res.Arr.(Sc).T
+	iv := [][2]string{{"i!c", SInt}}
+	c.assumeDef(tForall(iv, tImp(tAnd(tLe("0", "i!c"), tLt("i!c", out.Len)),
+		tEq(tSel(ra, "i!c"), tSel(out.Arr.(Sc).T, tAdd(out.Off, "i!c")))), tSel(ra, "i!c")))
+	off := out.Len
+	for k, p := range pieces {
+		end := c.define(fmt.Sprintf("out.off%d", k+1), SInt, tAdd(off, p.Len))
+		c.assumeDef(tForall(iv, tImp(tAnd(tLe(off, "i!c"), tLt("i!c", end)),
+			tEq(tSel(ra, "i!c"), tSel(p.Arr.(Sc).T, tAdd(p.Off, tSub("i!c", off))))), tSel(ra, "i!c")))
+		off = end
+	}
+	c.assumeDef(tEq(res.Len, off))
+	return res
 }
